@@ -3,6 +3,7 @@
    Print Assumptions.  GENERATED skeleton (tools/mkprops.py), statements are the ones Coq prints for the lemmas. *)
 From Coq Require Import ZArith List Bool String Reals.
 From VQ Require Import Num Model.Vec Model.Core Proofs.CoreExpire Proofs.CorePure Glue.CoreGlue Glue.Pin_p_expire.
+From VQ Require Import Glue.Pin_fp_C11.
 Import ListNotations.
 Open Scope R_scope.
 
@@ -175,3 +176,8 @@ Theorem C11_tie_expire_dataflow :
   p_expire.p_expire = pinned_p_expire.
 Proof. exact (@pin_p_expire). Qed.
 Print Assumptions C11_tie_expire_dataflow.
+
+Theorem C11_tie_source_footprint :
+  fp_C11.fp_C11 = pinned_fp_C11.
+Proof. exact (@Pin_fp_C11.pin_fp_C11). Qed.
+Print Assumptions C11_tie_source_footprint.
